@@ -898,4 +898,144 @@ theorem streamsEq_total : ∀ (la lb : List Char),
     · exact streamsEq_total a b
     · exact ⟨false, rfl⟩
 
+/-! ## `find_uncommented` and `get_comment_end` stay inside the text -/
+
+/-- total size of the characters of a tagged text -/
+def taggedLen (l : List (Kind × Char)) : Nat := utf8Len (l.map (·.2))
+
+theorem findGo_bound (pat : List Char) : ∀ (l : List (Kind × Char)) (needle : List Char) (i r : Nat),
+    utf8Len pat ≤ i + utf8Len needle → findGo pat needle i l = some r →
+    r + utf8Len pat ≤ i + taggedLen l
+  | [], needle, i, r, hinv, h => by
+    cases needle with
+    | nil =>
+      simp only [findGo, Option.some.injEq] at h
+      simp [utf8Len] at hinv
+      simp [taggedLen, utf8Len]; omega
+    | cons c cs => simp [findGo] at h
+  | (k, b) :: rest, needle, i, r, hinv, h => by
+    cases needle with
+    | nil =>
+      simp only [findGo, Option.some.injEq] at h
+      simp [utf8Len] at hinv
+      simp [taggedLen, utf8Len]; omega
+    | cons c cs =>
+      simp only [findGo] at h
+      split at h
+      · rename_i hm
+        have hbc : b = c := by simp at hm; exact hm.2
+        have := findGo_bound pat rest cs (i + b.utf8Size) r (by
+          simp [utf8Len] at hinv ⊢; rw [hbc]; omega) h
+        simp [taggedLen, utf8Len] at this ⊢; omega
+      · have := findGo_bound pat rest pat (i + b.utf8Size) r (by omega) h
+        simp [taggedLen, utf8Len] at this ⊢; omega
+
+/-- `find_uncommented` returns the start of an occurrence that lies inside the text. -/
+theorem findUncommented_bound (s pat : List Char) (r : Nat) (h : findUncommented s pat = some r) :
+    r + utf8Len pat ≤ utf8Len s := by
+  have := findGo_bound pat (classes s) pat 0 r (by omega) h
+  simpa [taggedLen, classes_map_snd] using this
+
+
+theorem findChar_lt (p : Char → Bool) : ∀ (s : List Char) (j : Nat), findChar p s = some j →
+    j < utf8Len s
+  | [], _, h => by simp [findChar] at h
+  | c :: cs, j, h => by
+    have hp := utf8Size_pos c
+    simp only [findChar] at h
+    split at h
+    · simp at h; subst h; simp [utf8Len]; omega
+    · simp only [Option.map_eq_some_iff] at h
+      obtain ⟨j', hj', rfl⟩ := h
+      have := findChar_lt p cs j' hj'
+      simp [utf8Len]; omega
+
+theorem dropBytes_len : ∀ (n : Nat) (s t : List Char), dropBytes? n s = some t →
+    utf8Len t + n = utf8Len s
+  | 0, s, t, h => by simp [dropBytes?] at h; subst h; rfl
+  | _ + 1, [], _, h => by simp [dropBytes?] at h
+  | n + 1, c :: cs, t, h => by
+    simp only [dropBytes?] at h
+    split at h
+    · have := dropBytes_len _ cs t h
+      simp [utf8Len]; omega
+    · simp at h
+
+theorem findCommentEndGo_le : ∀ (l : List (Kind × Char)) (i e : Nat),
+    findCommentEndGo i l = some e → e ≤ i + taggedLen l
+  | [], _, _, h => by simp [findCommentEndGo] at h
+  | (k, c) :: rest, i, e, h => by
+    simp only [findCommentEndGo] at h
+    split at h
+    · simp at h; omega
+    · have := findCommentEndGo_le rest _ e h
+      simp [taggedLen, utf8Len] at this ⊢; omega
+
+theorem findCommentEnd_le (s : List Char) (e : Nat) (h : findCommentEnd s = some e) :
+    e ≤ utf8Len s := by
+  simp only [findCommentEnd] at h
+  split at h
+  · rename_i i hi
+    simp at h; subst h
+    have := findCommentEndGo_le (classes s) 0 _ hi
+    simpa [taggedLen, classes_map_snd] using this
+  · split at h
+    · simp at h; omega
+    · simp at h
+
+/-- `get_comment_end` never points past the end of the gap between two list items, so
+`post_snippet[..comment_end]` (the post-comment zone) and the next item's pre-snippet (the rest of
+the gap) split the gap: no part of it is skipped. -/
+theorem getCommentEnd_le (post sep term : List Char) (isLast : Bool) (n : Nat) (hsep : sep ≠ [])
+    (h : getCommentEnd? post sep term isLast = some n) : n ≤ utf8Len post := by
+  have hsl : 1 ≤ utf8Len sep := by
+    cases sep with
+    | nil => exact absurd rfl hsep
+    | cons c cs => have := utf8Size_pos c; simp [utf8Len]; omega
+  unfold getCommentEnd? at h
+  split at h
+  · -- is_last
+    simp only [Option.some.injEq] at h
+    cases hf : findUncommented post term with
+    | none => simp [hf] at h; omega
+    | some r =>
+      have := findUncommented_bound post term r hf
+      simp [hf] at h; omega
+  · simp only [] at h
+    split at h
+    · rename_i sepIndex hs
+      have hsb := findUncommented_bound post sep sepIndex hs
+      have blockEnd_le : ∀ i m, (match dropBytes? i post with
+          | some t => (findCommentEnd t).map fun e => Nat.max (e + i) (sepIndex + 1)
+          | none => none) = some m → m ≤ utf8Len post := by
+        intro i m hm
+        split at hm
+        · rename_i t ht
+          simp only [Option.map_eq_some_iff] at hm
+          obtain ⟨e, he, rfl⟩ := hm
+          have h1 := findCommentEnd_le t e he
+          have h2 := dropBytes_len i post t ht
+          simp only [Nat.max_def]
+          split <;> omega
+        · simp at hm
+      split at h
+      · split at h
+        · simp at h; omega
+        · exact blockEnd_le _ _ h
+      · rename_i i j hbo hnl
+        have hj := findChar_lt _ post j hnl
+        split at h
+        · exact blockEnd_le _ _ h
+        · split at h <;> simp at h <;> omega
+      · rename_i j hbo hnl
+        have hj := findChar_lt _ post j hnl
+        split at h <;> simp at h <;> omega
+      · simp at h; omega
+    · split at h
+      · rename_i j hnl
+        have hj := findChar_lt _ post j hnl
+        simp at h; omega
+      · simp at h; omega
+
+
 end RF.Lemmas.Comment
